@@ -193,6 +193,12 @@ def exec_pair(params):
     prob2 = C.problem_of(comp2)
     F2, FT = RC.objective(prob2, w2), RC.objective(prob2, Tw)
     fista = comp["solver"]["name"] == "FISTA"
+    subdiff = C.strategy_of(comp["solver"]) == "subdiff" and comp["solver"]["name"] not in ("FISTA", "PDCD_WS", "LBFGS")
+
+    def cap(nu):
+        # both fits claimed stop_crit <= 1e-10 under the subdifferential criterion: a fit whose true violation is far above its claim
+        # (C01's business) must not widen the comparison bounds of this check
+        return min(nu, 1e-9) if subdiff else nu
     if prob2["penalty"]["name"] == "WeightedL1GroupL2":
         # no reference subdifferential for the sparse-group penalty: both points are optimal for the same convex problem, so
         # their objectives agree up to the tolerance of the fits (1e-10) - 1e-7 relative is three orders above it
@@ -200,7 +206,7 @@ def exec_pair(params):
             out.append(("solution_does_not_transform", dict(objective_difference=F2 - FT), "<= 1e-7 relative"))
         return out, w2
     for a, b, Fa, Fb, tag in ((w2, Tw, F2, FT, "transformed fit vs transform of fit"), (Tw, w2, FT, F2, "transform of fit vs transformed fit")):
-        nu = RC.violation(prob2, a)[0]
+        nu = cap(RC.violation(prob2, a)[0])
         bound = max(nu, 1e-10) * float(np.sum(np.abs(np.asarray(a) - np.asarray(b)))) + 1e-9 * (1 + abs(Fb))
         if Fa - Fb > bound:
             out.append(("solution_does_not_transform", dict(direction=tag, gap=Fa - Fb, violation=nu), f"<= {bound}"))
@@ -210,7 +216,7 @@ def exec_pair(params):
             (prob2["datafit"] is None or prob2["datafit"]["name"].startswith("Quadratic")):
         # strong convexity (modulus mu = lambda_min(Xa' Xa / n)): ||a - b||_2 <= (nu_a + nu_b) sqrt(dim) / mu for two points of violation nu_a, nu_b
         mu = float(np.linalg.eigvalsh(Xa.T @ Xa / Xa.shape[0])[0])
-        nus = RC.violation(prob2, w2)[0] + RC.violation(prob2, Tw)[0]
+        nus = cap(RC.violation(prob2, w2)[0]) + cap(RC.violation(prob2, Tw)[0])
         allowed = max(1e-6 * (1 + np.max(np.abs(Tw))), 2.0 * nus * np.sqrt(np.asarray(Tw).size) / mu)
         if np.max(np.abs(np.asarray(w2) - Tw)) > allowed:
             out.append(("coefficients_do_not_transform", float(np.max(np.abs(np.asarray(w2) - Tw))), f"<= {allowed}"))
